@@ -22,12 +22,14 @@ type pcall struct {
 
 // prefixes that leave the coroutine suspended in each kind of place it can wait for input
 var suspTexts = []string{
-	"(", "(a", "(a b", "((a) ", "[", "[1", "[1, ", "[[1] ", "{", "{a", "{a ", "{a:", "{a: ", "{a: 1", "{a: for", "{\"a\"", "{\"a\" ", "{\"a\":", "{`a`", "{`a`:",
+	"%(", "%[1 2", "^(", "~@[", "%{", "^%(", "(a %(", "[^[", "(", "(a", "(a b", "((a) ", "[", "[1", "[1, ", "[[1] ", "{", "{a", "{a ", "{a:", "{a: ", "{a: 1", "{a: for", "{\"a\"", "{\"a\" ", "{\"a\":", "{`a`", "{`a`:",
 	"{ /* c */", "{ // c\n", "{ /* c */ // d\n", "{ /* c */ a:", "{ /* c", "(%", "(^", "(~", "(~@", "(% ", "[%", "{%", "{a %", "(% // c\n", "(~ /* c */", "(a ~@ /* c",
 	"%", "^", "~", "~@", "% // c\n", "(a \\", "(a \\ ", "(a \\ b", "(a \\ b ", "(a \\ %", "(-", "(+", "(- ", "[+", "{a -", "-", "+", "(a -", "(- I",
 	"`abc", "(a `abc", "{a `", "\"abc", "(a \"abc", "(a \"b\\", "'a", "('", "'\\", "/* c", "(a /* c", "(a /* c *", "(a /", "(a // c", "((((((((", "[{([{(", "(a (b [c {d ",
 	"(a b) (c", "1 2 [3", "(a)) (b", "(def x %\n", "(a:", "(a.b.", "(1e", "(1e-", "(0x", "(a\n\n", "(hash a:", "(fn [a", "^(a ~", "^(a ~@(b",
 }
+
+var abandonAlphabet = []string{"%", "^", "~@", "(", "[", "{", "a ", ")"}
 
 func (h *harness) callsImpl(text string, via bool, cs []pcall) (string, bool) {
 	fresh := h.env.NewParser()
@@ -201,6 +203,15 @@ func (h *harness) callsPhase(targets, pool []string, n int) {
 			h.calls(t, k%2 == 1, cs, k == i%6, "calls:suspended")
 		}
 	}
+	// every sequence of <= 4 tokens over reader prefixes, bracket openers, an atom and a closer, abandoned where the
+	// parser stopped (suspended at a yield site of ParseList/ParseArray/ParseInfix or at a look-ahead, below any
+	// chain of reader prefixes and brackets), then the target by either route
+	k := 0
+	enumerate(abandonAlphabet, 4, func(s string) {
+		k++
+		t := targets[(k*13)%len(targets)]
+		h.calls(t, k%3 == 0, []pcall{{op: 'r', arg: s}, {op: 'p'}}, k%40 == 0, "calls:abandoned-enum")
+	})
 	for i := 0; i < n; i++ {
 		t := targets[h.rng.Intn(len(targets))]
 		h.calls(t, h.rng.Intn(2) == 0, h.genCalls(pool), i%4 == 0, "calls:random")
